@@ -301,7 +301,9 @@ func genC03(w *World, res *CheckResult) {
 			}
 		}
 	}
+	delete(w.forceInline, "checker.dereference") // only the binary cells execute dereference; the functions below use its contract
 	genCheckerPointer(w, res)
+	genCheckerConditional(w, res)
 	// static result type of arithmetic: checker.combined against the dynamic result kind of the helpers (cells shared with C14)
 	{
 		tmp := &CheckResult{}
@@ -313,6 +315,14 @@ func genC03(w *World, res *CheckResult) {
 		genC14Checker(w, e14, tmp)
 		res.Obls = append(res.Obls, selectObls(e14.obls, `^checker\.combined\[`)...)
 		res.Functions = append(res.Functions, tmp.Functions...)
+	}
+	// the optimizer keeps the static type the checker gave a literal (a folded literal of another type makes an
+	// accepted call fail in reflect.Call): the fold cells of C02
+	{
+		tmp := &CheckResult{Extra: map[string]interface{}{}}
+		genC02(w, tmp)
+		res.Obls = append(res.Obls, selectObls(tmp.Obls, `^optimizer\.fold\[.*\]/post:transparent$`)...)
+		res.Functions = append(res.Functions, "optimizer.fold.Exit")
 	}
 	res.Assumptions = append(res.Assumptions,
 		"typing assumption for the operands (the induction hypothesis of soundness): a child whose static type is T evaluates to a value of dynamic type exactly T (nil for the nil literal); interface-typed operands are outside the statement ('all its operands are statically typed')",
@@ -454,5 +464,107 @@ func genCheckerPointer(w *World, res *CheckResult) {
 			res.Obls = append(res.Obls, o)
 		}
 		res.Functions = append(res.Functions, n)
+	}
+}
+
+// genCheckerConditional: cells of the conditional's typing rule. A conditional
+// returns one branch unconverted, so the static type may only be a type both
+// branch values have: for each branch of static type T the result type is T
+// itself or an interface type (nil for two nil branches).
+func genCheckerConditional(w *World, res *CheckResult) {
+	fn := w.Func("checker.visitor.ConditionalNode")
+	if fn == nil {
+		res.Obls = append(res.Obls, missingObl("checker.visitor.ConditionalNode/exists", "function not found"))
+		return
+	}
+	res.Functions = append(res.Functions, "checker.visitor.ConditionalNode")
+	lay := astLayout{w}
+	U := c03Universe()
+	byCode := map[*Term]c03Type{}
+	for _, t := range U {
+		byCode[t.code()] = t
+	}
+	vst := fn.Params[0].Type().Underlying().(*types.Pointer).Elem().Underlying().(*types.Struct)
+	errOff := -1
+	for k := 0; k < vst.NumFields(); k++ {
+		if vst.Field(k).Name() == "err" {
+			errOff = fieldLeafOffset(vst, k)
+		}
+	}
+	boolT := c03Type{"bool", types.Typ[types.Bool]}
+	for _, t1 := range U {
+		for _, t2 := range U {
+			cell := fmt.Sprintf("checker.ConditionalNode[%s,%s]", t1.name, t2.name)
+			e := NewExec(w)
+			e.SafeMode = func(f *ssa.Function) string { return "panics" }
+			st := NewState()
+			e.paramMode = true
+			vv := e.havocValue(st, fn.Params[0].Type(), "v")
+			e.paramMode = false
+			st.Assume(Not(Eq(vv.One(), NilLoc)))
+			cn := FreshPre(st, "cond")
+			AssumeDistinctObjs(st, cn, vv.One())
+			e.initFacts(st, fn, e.entryEnv(st, fn, []*Value{vv, {T: fn.Params[1].Type(), L: []*Term{cn}}}, nil))
+			c, a, b := Fresh("condnode", SVal), Fresh("exp1node", SVal), Fresh("exp2node", SVal)
+			for _, x := range []*Term{c, a, b} {
+				st.Assume(Not(Eq(x, VNil)))
+			}
+			st.Assume(Not(Eq(c, a)))
+			st.Assume(Not(Eq(c, b)))
+			st.Assume(Not(Eq(a, b)))
+			st.Store(LocField(cn, lay.off("ConditionalNode", "Cond")), c)
+			st.Store(LocField(cn, lay.off("ConditionalNode", "Exp1")), a)
+			st.Store(LocField(cn, lay.off("ConditionalNode", "Exp2")), b)
+			st.Store(LocField(vv.One(), errOff), NilLoc)
+			e.CallHook = func(e *Exec, st *State, fr *Frame, cc *ssa.CallCommon, callee *ssa.Function, args []*Value, k func(*State, []*Value)) bool {
+				if shortName(callee) == "checker.visitor.visit" {
+					t := boolT.code()
+					if st.Simp(Eq(args[1].One(), a)) == True {
+						t = t1.code()
+					} else if st.Simp(Eq(args[1].One(), b)) == True {
+						t = t2.code()
+					}
+					k(st, []*Value{{T: callee.Signature.Results().At(0).Type(), L: []*Term{t}}})
+					return true
+				}
+				return false
+			}
+			e.InvokeHook = func(e *Exec, st *State, fr *Frame, cc *ssa.CallCommon, recv *Value, args []*Value, k func(*State, []*Value)) bool {
+				if cc.Method.Name() == "AssignableTo" && len(args) == 1 {
+					x, okx := byCode[st.Simp(recv.One())]
+					y, oky := byCode[st.Simp(args[0].One())]
+					if okx && oky && x.T != nil && y.T != nil {
+						r := False
+						if types.AssignableTo(x.T, y.T) {
+							r = True
+						}
+						k(st, []*Value{{T: tBool, L: []*Term{r}}})
+						return true
+					}
+				}
+				return false
+			}
+			for _, o := range e.Run(fn, []*Value{vv, {T: fn.Params[1].Type(), L: []*Term{cn}}}, st, nil) {
+				if o.Panic != nil {
+					e.AddVC(cell+"/covers-branches", "post", fn.String(), o.St, True, "the typing rule itself must not fail")
+					continue
+				}
+				rejected := Not(Eq(o.St.Load(LocField(vv.One(), errOff), SLoc), NilLoc))
+				r := o.Res[0].One()
+				covers := func(t c03Type) *Term {
+					if t.T == nil {
+						return True
+					}
+					return Or(Eq(r, t.code()), Eq(rtKind(r), BV64(20)))
+				}
+				e.AddVC(cell+"/covers-branches", "post", fn.String(), o.St, And(Not(rejected), Not(And(covers(t1), covers(t2)))),
+					"the conditional's static type is a type both branch values have: the branch's own type, or an interface type")
+			}
+			for _, o := range e.obls {
+				if strings.HasPrefix(o.Name, cell+"/") {
+					res.Obls = append(res.Obls, o)
+				}
+			}
+		}
 	}
 }
